@@ -1105,3 +1105,19 @@ def first_optional_groups(pattern, flags, wanted):
             return out
         return []
     return []
+
+
+def quotient(lang, pre, suf):
+    """{ x : pre + x + suf in lang }  (lang over Σ, no markers)"""
+    alpha = lang.alpha
+    q0 = 0
+    for ch in pre:
+        q0 = lang.trans[q0][alpha.idx[ch]]
+    acc = set()
+    for q in range(len(lang.trans)):
+        t = q
+        for ch in suf:
+            t = lang.trans[t][alpha.idx[ch]]
+        if lang.acc[t]:
+            acc.add(q)
+    return from_function(alpha, [], q0, lambda s, sym: lang.trans[s][sym], lambda s: s in acc, lang.classes())
